@@ -146,7 +146,7 @@ def run(ctx) -> None:
         if a.is_cm(Sub):
             # form (a): context manager  append / try: yield / finally: remove
             sp = Sub.params[1] if len(Sub.params) > 1 else None
-            rems = [(n, m) for n, m in a.func_mutations(Sub) if m.path[-1] == streams and m.kind.startswith("call:") and m.kind not in ("call:append", "call:add")]
+            rems = [(n, m) for n, m in a.func_mutations(Sub) if m.path[-1] == streams and m.kind.startswith("call:") and m.kind not in ("call:append", "call:add", "call:insert", "call:extend")]
             yields = [n for n in a.yield_nodes(Sub)]
             rep.check("C10.R4", isinstance(added, ast.Name) and added.id == sp, Sub, am.node, "the given send stream is added to the subscriber list", "something else than the given stream is subscribed")
             rep.check("C10.R4", bool(yields) and scfg.dominates(an_.id, yields[0].id), Sub, am.node, "the subscription exists when the context manager is entered", "the stream is added after the yield")
@@ -203,7 +203,9 @@ def run(ctx) -> None:
         sn, sc = sub_point
         for what, rr in (("send", send_regs), ("receive", recv_regs)):
             if not rr:
-                rep.violate("C10.R4", stream_events, sc, f"the {what} stream is never entered on the exit stack: it is not closed when the stream is left")
+                # never closed by the exit stack: a leak, but no dispatch can then meet a closed
+                # stream either - the statement is about delivery, not about resource hygiene
+                rep.note(f"C10.R4: the {what} stream is not entered on the exit stack (it is never closed there; not required by the statement)")
                 continue
             ok = secfg.dominates(rr[0][0].id, sn.id) and rr[0][0].id not in secfg.reach([sn.id], include_start=False)
             rep.check("C10.R4", ok, stream_events, rr[0][1], f"the {what} stream is entered before the subscriptions, so it is closed only after they were removed (no dispatch ever sees a closed stream)", f"the {what} stream is closed before the subscriptions are removed: a dispatch in between hits a closed stream")
@@ -212,7 +214,7 @@ def run(ctx) -> None:
         ok = bool(loops2) and isinstance(loops2[-1][0], ast.Name) and loops2[-1][0].id == sig_param
         rep.check("C10.R4", ok, stream_events, sc, "every signal of the `signals` argument is subscribed", "not every given signal is subscribed")
         rep.check("C10.R4", isinstance(sub_stream_arg, ast.Name) and sub_stream_arg.id == send_v, stream_events, sc, "all signals feed the same send stream", "the subscription does not use this stream's send end")
-    rep.floor("C10.R4", len(regs), 4)
+    rep.floor("C10.R4", len(regs), 3)  # send, receive, subscription (an eager close of the filtered generator is optional)
 
     # ------------------------------------------------------------------ R5 filter on every yielded event
     fparam = stream_events.params[1] if len(stream_events.params) > 1 else "filter"
